@@ -13,7 +13,7 @@ from .plans import _pick, gen_policy
 TYPES = ['response', 'stream', 'channel', 'fire_and_forget', 'metadata_push']
 KIND_OF = {'response': 'rr', 'stream': 'stream', 'channel': 'channel', 'fire_and_forget': 'fnf', 'metadata_push': 'push'}
 TYPE_OF = {v: k for k, v in KIND_OF.items()}
-SIGS = ['payload', 'payload_annot', 'cm_named', 'cm_annot', 'both', 'both_annot']
+SIGS = ['payload', 'payload_annot', 'cm_named', 'cm_annot', 'both', 'both_annot', 'typed_payload', 'typed_plain_cm']
 TAG_MIME = b'x.sim/tag'
 
 
@@ -168,13 +168,28 @@ def _make_route_fn(world, t, name, sig):
     elif sig == 'both_annot':
         async def fn(p: Payload, m: CompositeMetadata):
             return await body(p, m, {'p': p, 'm': m})
+    elif sig == 'typed_payload':
+        async def fn(message: Msg, p: Payload):
+            return await body(p, None, {'message': message, 'p': p})
+    elif sig == 'typed_plain_cm':
+        async def fn(message: Msg, request, composite_metadata):
+            return await body(request, composite_metadata, {'message': message, 'request': request, 'composite_metadata': composite_metadata})
     else:
         async def fn():
             return await body(None, None, {})
     return fn
 
 
-EXPECT_PARAM = {'payload': {'payload': 'Payload'}, 'payload_annot': {'p': 'Payload'},
+class Msg:
+    """A custom-typed parameter: produced by the router's payload_deserializer."""
+
+    def __init__(self, payload):
+        self.payload = payload
+
+
+EXPECT_PARAM = {'typed_payload': {'message': 'Msg', 'p': 'Payload'},
+                'typed_plain_cm': {'message': 'Msg', 'request': 'Payload', 'composite_metadata': 'CompositeMetadata'},
+                'payload': {'payload': 'Payload'}, 'payload_annot': {'p': 'Payload'},
                 'cm_named': {'composite_metadata': 'CompositeMetadata'}, 'cm_annot': {'meta': 'CompositeMetadata'},
                 'both': {'payload': 'Payload', 'composite_metadata': 'CompositeMetadata'},
                 'both_annot': {'p': 'Payload', 'm': 'CompositeMetadata'}, 'none': {}}
@@ -194,7 +209,7 @@ def _run(world, plan):
     link = build_link(world, plan)
     world.link = link
 
-    router = RequestRouter()
+    router = RequestRouter(payload_deserializer=lambda cls, payload: cls(payload) if cls is Msg else payload)
     for t in TYPES:
         for name, sig in plan['table'].get(t, {}).items():
             getattr(router, t)(name)(_make_route_fn(world, t, name, sig))
